@@ -16,6 +16,55 @@ np.seterr(all='ignore')
 import dicaugment as A  # noqa: E402
 
 
+# ---- seeding: ordinary seeds, and "extreme" seeds under which every draw is an END POINT of its range ----
+# An extreme seed EXT_BASE + pattern makes random.random / randint / uniform / randrange return the lowest or the
+# highest value they can legally return, chosen by the bits of the 16-bit pattern (cyclically).  Corners of the
+# parameter samplers that a seeded run meets once in thousands of calls (both faces of a window shifted inwards
+# by the full amount, a start fraction of 0.999..., the largest hole) are then met on every such run.  The seed
+# is an integer like any other, so replay files need nothing special.
+EXT_BASE = 1 << 40
+_ORIG = (random.random, random.randint, random.uniform, random.randrange)
+EXT_PATTERNS = [0x0000, 0xFFFF, 0x5555, 0xAAAA, 0x3333, 0xCCCC, 0x0F0F, 0xF0F0]
+
+
+def restore_random():
+    random.random, random.randint, random.uniform, random.randrange = _ORIG
+
+
+def seed(value):
+    """random.seed(value); for an extreme seed additionally route the draw functions to their end points"""
+    restore_random()
+    random.seed(value)
+    if not isinstance(value, int) or value < EXT_BASE:
+        return
+    st = {'p': value - EXT_BASE, 'i': 0}
+
+    def bit():
+        b = (st['p'] >> (st['i'] % 16)) & 1
+        st['i'] += 1
+        return b
+    top = 1.0 - 2.0 ** -53
+
+    def rrange(a, b=None, step=1):
+        if b is None:
+            a, b = 0, a
+        n = (b - a + step - 1) // step
+        if n <= 0:
+            raise ValueError('empty range for randrange()')
+        return a + (n - 1) * step if bit() else a
+    random.random = lambda: top if bit() else 0.0
+    random.randint = lambda a, b: _ORIG[1](a, b) if b < a else (b if bit() else a)
+    random.uniform = lambda a, b: a + (b - a) * (top if bit() else 0.0)
+    random.randrange = rrange
+
+
+def pick_seed(rng, p_extreme=0.2):
+    """a case seed: mostly ordinary, sometimes an extreme one"""
+    if rng.random() < p_extreme:
+        return EXT_BASE + (rng.choice(EXT_PATTERNS) if rng.random() < 0.7 else rng.getrandbits(16))
+    return rng.randint(0, 10 ** 6)
+
+
 def make_leaf(spec):
     """spec = {'cls': name, 'args': {...}, 'pin': {...} or None}"""
     cls = getattr(A, spec['cls'])
